@@ -446,6 +446,7 @@ type Contract struct {
 	Notes    []string
 	Uses     []*Expr
 	Implements []string
+	Measure *Expr // termination measure of a recursive function: must decrease (and stay >= 0) at every call to a function that also declares one
 	SplitReturns bool // check the postconditions separately at every return statement (simpler terms than the merged state)
 	ExactEmits bool // the declared emits are exactly the function's own activation trace (checked)
 	Asserts    []*MidAssert
@@ -806,6 +807,12 @@ func (c *Contract) addClause(word, rest string) error {
 			return fmt.Errorf("uses expects AXIOM(args)")
 		}
 		c.Uses = append(c.Uses, e)
+	case "measure":
+		e, err := ParseExpr(rest)
+		if err != nil {
+			return err
+		}
+		c.Measure = e
 	case "splitreturns":
 		c.SplitReturns = true
 	case "exactemits":
